@@ -61,11 +61,23 @@ def gen(code):
     return g
 
 
+def index_labels(ids):
+    """row labels of the input table: default, with gaps, or in reverse (chosen from the ids, deterministic)"""
+    n = len(ids)
+    pattern = (sum(int(i) for i in ids) + n) % 3
+    if pattern == 0:
+        return list(range(n))
+    if pattern == 1:
+        return [10 + 3 * k for k in range(n)]
+    return [n - 1 - k for k in range(n)]
+
+
 def make_db(ids, xs):
     import pandas as pd
     import biogeme.database as db
 
-    d = db.Database('pd', pd.DataFrame({'id': [float(i) for i in ids], 'x': [float(x) for x in xs]}))
+    df = pd.DataFrame({'id': [float(i) for i in ids], 'x': [float(x) for x in xs]}, index=index_labels(ids))
+    d = db.Database('pd', df)
     d.set_random_number_generators({TYPE_A: (gen(CODE[TYPE_A]), 'deterministic A'), TYPE_B: (gen(CODE[TYPE_B]), 'deterministic B')})
     return d
 
